@@ -32,6 +32,8 @@ open Dropshot Dropshot.Proto Dropshot.Schema Dropshot.Doc07
 
 namespace Dropshot.DriverC07
 
+instance : BEq J := ⟨J.beq⟩
+
 def out (id : String) (agree : Bool) (spec : String) (cls known model : String) : String :=
   s!"{id} agree={b2s agree} spec={spec} class={cls} known={known} model={model}"
 
@@ -288,8 +290,8 @@ def handleRq (id variant : String) (ep : EpDesc) (op comps req : J) (status : Na
     let m2 := (docBody.map (·.1)) == (match expectedCt with | some c => [c.mime] | none => [])
       && (ep.bodyTy.isSome == ((op.get? "requestBody").isSome))
       && (match op.get? "requestBody" with | some rb => (rb.get? "required") == some (.bool true) | none => true)
-    let docSucc := match op.get? "responses" with
-      | some (.obj rs) => rs.filter fun kv => kv.1 != "4XX" && kv.1 != "5XX"
+    let docSucc : List (String × J) := match op.get? "responses" with
+      | some (.obj rs) => rs.filter fun (kv : String × J) => kv.1 != "4XX" && kv.1 != "5XX"
       | _ => []
     let m3 := (docSucc.map (·.1)) == [statusKey ep.kind.status]
       && (match docSucc with
@@ -324,14 +326,18 @@ def handleRq (id variant : String) (ep : EpDesc) (op comps req : J) (status : Na
     let m4 := predicted == status
     -- the model's derived schema vs the documented one, on the bodies at hand
     let jenv : Env := ⟨fun _ _ => true, patFixed⟩
+    -- what the model says is published for a root type: the conversion of its root schema
+    let publishedValid (t : Ty) (j : J) : Bool := match j2oas none (rootSchemaOf t) with
+      | .ok r => r.valid jenv j
+      | .error _ => false
     let m5req := match ep.bodyTy, ep.bodyCt, rbody, docBody with
-      | some t, some "json", some j, [(_, s)] => (schemaOf t).valid jenv j == s.valid env j
+      | some t, some "json", some j, [(_, s)] => publishedValid t j == s.valid env j
       | _, _, _, _ => true
     let succResp := docResponseFor d op status
     let succContent := (succResp.map fun r => contentOf (r.get? "content")).getD (some [])
     let m5resp := match ep.respTy, respBodyJ, succContent with
       | some t, some j, some [(_, s)] =>
-        if status < 300 then (schemaOf t).valid jenv j == s.valid env j else true
+        if status < 300 then publishedValid t j == s.valid env j else true
       | _, _, _ => true
     let agree := m1 && m2 && m3 && m4 && m5req && m5resp
     -- ---------------- specification (document + validator only) ------------
